@@ -198,6 +198,16 @@ def check(run, ctx):
 
     G8 = run.rule("G8", "a validator of src/config.py skips its check only when the key is absent (KeyError / `in` / `is None`), never because the value is falsy", floor=3,
                   decides="`config set timeout 0`, `max_retries \"\"` and similar falsy values are validated (and rejected) like any other value")
+    mc = repo.func("src.config.merge_configs")
+    ovp = mc.node.args.args[1].arg if len(mc.node.args.args) > 1 else "override"
+    loops_ = [l for l in ast.walk(mc.node) if isinstance(l, ast.For) and isinstance(l.iter, ast.Call) and call_name(l.iter) == "items" and isinstance(l.iter.func.value, ast.Name) and l.iter.func.value.id == ovp]
+    run.require(bool(loops_), "merge_configs: no loop over <override>.items()")
+    vname = loops_[0].target.elts[1].id if isinstance(loops_[0].target, ast.Tuple) and len(loops_[0].target.elts) == 2 and isinstance(loops_[0].target.elts[1], ast.Name) else None
+    truthy = [t for n in ast.walk(loops_[0]) if isinstance(n, ast.If) for t in ast.walk(n.test) if vname and ((isinstance(t, ast.Name) and t.id == vname and not any(isinstance(p_, (ast.Call, ast.Compare)) and any(x is t for x in ast.walk(p_)) and p_ is not n.test for p_ in ast.walk(n.test))))]
+    if truthy:
+        run.finding(G8, "merge_configs", f"falsy-override-dropped:{vname}", f"merge_configs lets the truthiness of the file's value decide whether it overrides the default (`{vname}` tested bare in a condition): a valid falsy setting (`max_retries: 0`, `greeting: \"\"`, `false`) is read back as the default and disappears from the file at the next save", f"{mc.module.rel}:{truthy[0].lineno}")
+    else:
+        run.ok(G8, "merge_configs", "every key of the file overrides the default, whatever its value")
     for f in sorted(repo.funcs_in("src.config."), key=lambda x: x.qual):
         if not f.name.startswith("_validate_") or f.parent is not None:
             continue
